@@ -370,6 +370,91 @@ def gen_noname(rng, aimed=True):
     return files, cmds
 
 
+RESCUE = 'resc.txt'
+
+
+def gen_allquit(rng, ustate=None, final=None):
+    """a session of an editor started WITHOUT a file name in which the unnamed start-up buffer is LEFT BEHIND (no write names it): it
+    stays in the table -- empty and untouched, holding text typed into it (then it can only be left with e!), or with its text undone
+    again -- while 1-3 named files are opened, some of them modified and left with e!; the buffers are moved around with :b; then a quit
+    form, the `a` form (xa: every buffer is written, the first error stops the quit) among them.  After a refusal: the buffers the
+    refused quit may have written are visited and undone (u, q, redo), the unnamed buffer is rescued with `w <name>`, and the quit
+    forms are asked again until the editor has gone."""
+    nf = rng.choice([1, 2, 2, 3])
+    files = {}
+    for i in range(nf):
+        files['f%d.txt' % (i + 1)] = ''.join('%s%d%d %s\n' % (rng.choice(WORDS), i + 1, j, rng.choice(WORDS)) for j in range(rng.range(2, 4))).encode()
+    names = sorted(files)
+    uniq = [0]
+    nout = [0]
+
+    def mod():
+        uniq[0] += 1
+        return ('mod', rng.choice(['1s/^/M%d /', '$s/$/ M%d/', '1s/x/Y%d/', '2s/^/N%d /', '1d', '$a\nt%d x\n.']).replace('%d', str(uniq[0])), None)
+
+    def other():
+        nout[0] += 1
+        return 'out%d.txt' % nout[0]
+
+    def quit_form():
+        f = final or rng.choice(['xa', 'xa', 'xa', 'xa', 'q', 'q', 'x', 'wq', 'wq %s', 'x %s'])
+        return ('q', f % other() if '%s' in f else f, None)
+
+    ustate = ustate or rng.choice(['empty', 'text', 'text', 'text', 'undone', 'text2'])
+    cmds = []
+    cur_mod = False
+    if ustate != 'empty':
+        uniq[0] += 1
+        cmds.append(('mod', 'a\nscratch %d x\nmore %d\n.' % (uniq[0], uniq[0]), None))
+        cur_mod = True
+        if ustate == 'text2':
+            cmds.append(mod())
+        if ustate == 'undone':
+            cmds.append(('u', 'u', None))
+            cur_mod = False
+    modified = set()
+    for i, n in enumerate(names):
+        if cur_mod and rng.chance(1, 3):
+            cmds.append(('e', 'e %s' % n, n))                          # must be refused
+        cmds.append(('eforce', 'e! %s' % n, n) if cur_mod else ('e', 'e %s' % n, n))
+        cur_mod = False
+        r = rng.below(6)
+        if r < 3 and not (i == len(names) - 1 and rng.chance(1, 2)):
+            cmds.append(mod())
+            cur_mod = True
+            modified.add(n)
+            if r == 0:
+                cmds += [('w', 'w', None), mod()]
+            elif r == 1 and rng.chance(1, 2):
+                cmds.append(('wpart', '1w', None))
+    # move around: :b n (ids are given in the order of opening: 1 = the unnamed buffer), :e of an open file
+    for _ in range(rng.choice([0, 0, 1, 2])):
+        j = rng.range(1, nf + 1)
+        if rng.chance(1, 2):
+            cmds.append(('b', 'b %d' % j, None))
+        else:
+            n = rng.choice(names)
+            cmds.append(rng.choice([('e', 'e %s' % n, n), ('eforce', 'e! %s' % n, n)]))
+    if rng.chance(1, 3):
+        cmds.append(mod())
+    cmds.append(quit_form())
+    # still there: what a refused quit has written, and what it has not
+    for n in names:
+        if rng.chance(2, 3):
+            cmds += [('eforce', 'e! %s' % n, n), ('u', 'u', None), ('q', 'q', None)]
+            if rng.chance(1, 2):
+                cmds.append(('r', 'redo', None))
+            if rng.chance(1, 3):
+                cmds.append(('w', 'w!', None))
+    cmds.append(quit_form())
+    # the rescue: the current buffer is written (w! does not depend on the clock), the unnamed buffer gets a name
+    cmds += [('w', 'w!', None), ('b', 'b 1', None), ('wname', 'w %s' % RESCUE, RESCUE), ('q', rng.choice(['xa', 'q', 'x']), None)]
+    for _ in range(nf + 1):
+        cmds += [('w', 'w!', None), ('q', rng.choice(['q', 'q', 'x', 'wq', 'xa']), None)]
+    cmds.append(('q', 'q', None))
+    return files, cmds
+
+
 def bulk_block(rng, m, tag):
     out = []
     for i in range(m):
@@ -652,6 +737,7 @@ def oracle_history(files, cmds, obs, exited_at, snaps, fault=None, final=None, n
     text[curp[0]] = o0['text']
     state[curp[0]] = 0
     prev_cur = curp[0]
+    unmarked = set()                                # buffers a REFUSED :xa has written without recording it (finding, see below)
 
     def dirty(p):
         if content.get(p, b'') is None:             # ghost disk unknown (see 'mixed'): neither a refusal nor an allowance is demanded for p
@@ -686,6 +772,9 @@ def oracle_history(files, cmds, obs, exited_at, snaps, fault=None, final=None, n
                     if sv_here.get(p) == 'failed' and dirty_before[p]:
                         return (k, ':xa exited although the save of %s failed and its text differs from what the file held when last successfully written' % p,
                                 'no exit; text of %s = %r, last successfully written = %r' % (p, text[p], content.get(p)), 'editor exited')
+                    if final is not None and p == '' and text[p] != b'':
+                        return (k, ':xa exited although the buffer without a name holds text: it is in no file, the text is discarded',
+                                'no exit (a buffer without a name cannot be written: "cannot create file"); its text = %r' % text[p], 'editor exited')
                     if final is not None and sv_here.get(p) != 'failed' and as_text(final.get(p) or b'') != text[p]:
                         return (k, ':xa exited but the file of buffer %s does not hold its text: the changes are discarded' % p,
                                 'file = text %r' % text[p], 'editor exited; file = %r' % final.get(p))
@@ -764,7 +853,26 @@ def oracle_history(files, cmds, obs, exited_at, snaps, fault=None, final=None, n
                 for j, n in enumerate(names):
                     sn = snaps.get('snap_%d_%d' % (k, j))
                     if sn is not None:
+                        if n in unmarked:
+                            # judged again once the buffer is written whole to its own path by a command that records it
+                            if prev_cur == n and (kind == 'w' or (kind == 'q' and ctext in ('wq', 'x'))) and ctext_full in ('w', 'w!', 'wq', 'x') and \
+                                    re.search(rb'"' + re.escape(n.encode()) + rb'"  \[=\d+\]  \[w\]', o['cmdout']):
+                                unmarked.discard(n)
+                            else:
+                                continue
                         content[n] = sn
+            # FINDING on the unchanged tree (design.d/C02.md "Round i/j", fixes/C02-xa-saved-unmarked.patch): the loop of a REFUSED :xa has
+            # written the buffers in front of the refusing slot with lbuf_save but recorded neither lbuf_saved nor the mtime.  Such a
+            # buffer -- not the current one, its text differed from its file, its file holds its text now -- reports clean after one undo
+            # while the file holds the newer text.  Narrow classifier: exactly these buffers are not judged (ghost disk unknown) until
+            # a whole write to the own path records the save; counted.  An :xa that EXITS is judged in full above.
+            if kind == 'q' and ctext == 'xa':
+                for p in sorted(text):
+                    if p and p != prev_cur and dirty_before.get(p) and content.get(p) is not None and as_text(content[p]) == text[p]:
+                        unmarked.add(p)
+                        content[p] = None
+                        if notes is not None:
+                            notes['xa_unmarked'] = k
         else:
             for j, n in enumerate(names):
                 sn = snaps.get('snap_%d_%d' % (k, j))
@@ -965,11 +1073,35 @@ def run_history(exe, model_q, files, cmds, timeout=30, nbufs=16, shim=None, sche
             pass
         elif k < len(obs) and not (kind == 'b' and int(cmds[k - 1][1].split()[1]) not in {i for (i, _, _, _) in obs[k - 1]['listing']}):
             qs.append(('G ' + ' '.join(flags), 'refused' if b'buffer modified' in obs[k]['cmdout'] else 'pass', k))
+    # every quit form without a path argument over the table of named / unnamed buffers: the model DirtyAllDefs.ec_quit_n (every
+    # save of a path succeeds, the empty path cannot be created) says exit or which buffer is the current one afterwards
+    aqs = []
+    if shim is None:
+        for k in range(1, min(len(obs), len(cmds)) + (1 if exited_at else 0)):
+            kind, ctext = cmds[k - 1][0], cmds[k - 1][1]
+            if kind != 'q' or ctext not in ('q', 'wq', 'x', 'xa') or k - 1 >= len(obs):
+                continue
+            if notes.get('evicted_modified') and k >= notes['evicted_modified']:
+                break
+            before = obs[k - 1]['listing']
+            paths = [p for (_, _, p, _) in before]
+            if not before or before[0][1] != '%' or paths.count('') > 1 or len(set(paths)) != len(paths):
+                continue
+            slots = ['%s%s' % ('u' if p == '' else 'n', '1' if f == '*' else '0') for (_, _, p, f) in before]
+            if exited_at == k:
+                aqs.append(('A %s %s' % (ctext, ' '.join(slots)), 'quit', k))
+            elif k < len(obs):
+                co = obs[k]['cmdout']
+                if b'write failed: file' in co or (b'write failed' in co and b'cannot create' not in co and paths[0] != ''):
+                    continue            # a save refused by the mtime guards / failed in the environment: not the model's "every save succeeds"
+                cur = [p for (_, c, p, _) in obs[k]['listing'] if c == '%']
+                if cur and cur[0] in paths:
+                    aqs.append(('A %s %s' % (ctext, ' '.join(slots)), 'stay %d' % paths.index(cur[0]), k))
     # the first step with an injected error: the same command with the same schedule for the model with failing writes
     fq = None
     if shim is not None and sched:
         fq = fault_question(files, cmds, obs, exited_at, calls, fault['status'])
-    return {'status': 'bad' if bad else 'ok', 'bad': bad, 'nobs': len(obs), 'exited_at': exited_at, 'qs': qs, 'fq': fq, 'calls': calls,
+    return {'status': 'bad' if bad else 'ok', 'bad': bad, 'nobs': len(obs), 'exited_at': exited_at, 'qs': qs, 'aqs': aqs, 'fq': fq, 'calls': calls,
             'maxbufs': max([len(o['listing']) for o in obs] or [0]), 'notes': notes,
             'refusals': sum(1 for o in obs if b'buffer modified' in o['cmdout']), 'out': r.out[-400:] if bad else b''}
 
@@ -1216,8 +1348,16 @@ def run(ctx):
     res.count('histories of an editor started without a file name (unnamed buffer named by its first write; partial own-path write; undo to the first state)', len(nns))
     n_named = len(hs)
     hs += nns
+    # round j: the unnamed start-up buffer left behind in the table (empty / holding text / text undone), 1-3 named files, every quit
+    # form incl. xa; after a refusal the written buffers are undone and the unnamed buffer is rescued
+    r8 = rng.fork('allquit')
+    aq = [gen_allquit(r8, ustate=u, final=f) for u in ('empty', 'text', 'undone', 'text2') for f in ('xa', 'xa', 'q', 'x', 'wq', 'wq %s')]
+    aq += [gen_allquit(r8) for _ in range(100 if ctx.quick else 3000)]
+    res.count('histories with the unnamed start-up buffer left behind in the table (empty / holding text / undone) and every quit form incl. xa', len(aq))
+    hs += aq
     houts = vlib.pmap(lambda ih: run_history(vi, None, ih[1][0], ih[1][1], timeout=60, nbufs=NB, noname=ih[0] >= n_named), list(enumerate(hs)))
     questions = []
+    aquestions = []
     nref = 0
     for hi, ((files, cmds), r) in enumerate(zip(hs, houts)):
         nn = hi >= n_named
@@ -1239,6 +1379,9 @@ def run(ctx):
         if r['status'] == 'bad' and sum(1 for v in res.violations if v.get('input', {}).get('kind') == 'history' and bool(v['input'].get('noname')) == nn) < 3:
             report_hist(files, cmds, r, nn)
         questions += [(q, a, files, cmds, k, nn) for (q, a, k) in r['qs']]
+        aquestions += [(q, a, files, cmds, k, nn) for (q, a, k) in r.get('aqs', [])]
+        if r.get('notes', {}).get('xa_unmarked'):
+            res.count('histories in which a buffer written by a REFUSED :xa is not judged until its next whole write (finding: the save is not recorded, fixes/C02-xa-saved-unmarked.patch)')
     res.extra['histories_with_a_refusal'] = nref
     if hs:
         res.sample({'kind': 'history', 'files': sorted(hs[0][0]), 'cmds': [c[1] for c in hs[0][1]]})
@@ -1259,6 +1402,20 @@ def run(ctx):
     # ---- round f: saves that fail (LD_PRELOAD shim): dry run -> the calls of every step -> one call gets an error
     shim = c03.build_shim()
     model_f = ctx.model('dirtyio')
+    # ---- every quit form over named / unnamed buffers: DirtyAllDefs.ec_quit_n answers the same questions
+    if model_f and aquestions:
+        rc, out, err = run_exe(model_f, [q[0] for q in aquestions])
+        if rc != 0 or len(out) != len(aquestions):
+            res.disagree({'what': 'model driver (quit forms over named / unnamed buffers): rc=%d, %d answers for %d questions: %s' % (rc, len(out), len(aquestions), err[-300:])})
+        else:
+            res.count('quit commands (q / wq / x / xa) answered by the model of every quit form over named / unnamed buffers', len(aquestions))
+            res.count('of these: xa', sum(1 for q in aquestions if q[0].startswith('A xa ')))
+            res.count('of these: with the unnamed buffer in the table', sum(1 for q in aquestions if ' u' in q[0]))
+            for (q, a, files, cmds, k, nn), m in zip(aquestions, out):
+                if ' '.join(m.split()[:2 if m.startswith('stay') else 1]) != a:
+                    res.disagree({'what': 'model of ec_quit over named / unnamed buffers (DirtyAllDefs.ec_quit_n) and the implementation decide differently (exit? / which buffer is current afterwards)',
+                                  'input': hist_input(files, cmds, nn),
+                                  'question': q, 'step': k, 'implementation': a, 'model': m})
     r6 = rng.fork('fault')
     fcases = [gen_fault(r6) for _ in range(160 if ctx.quick else 4000)]
     dry = vlib.pmap(lambda c: run_history(vi, None, c[0], c[1], timeout=60, nbufs=NB, shim=shim, sched=()), fcases)
